@@ -36,7 +36,7 @@ pub const LOCAL_V4: SocketAddr = SocketAddr::new(std::net::IpAddr::V4(Ipv4Addr::
 pub const LOCAL_V6: SocketAddr = SocketAddr::new(std::net::IpAddr::V6(Ipv6Addr::new(0xfd00, 0, 0, 0, 0, 0, 0, 1)), 9000);
 
 pub struct ServiceRig {
-    pub discv5: Discv5,
+    pub discv5: std::sync::Arc<Discv5>,
     pub sk: SigningKey,
     pub local_id: NodeId,
     pub script: Option<HandlerScript>,
@@ -71,7 +71,7 @@ impl ServiceRig {
         let script = push_scripted_handler();
         discv5.start().await.expect("service start with scripted handler");
         let events = discv5.event_stream().await.expect("event stream");
-        ServiceRig { discv5, sk, local_id, script: Some(script), events }
+        ServiceRig { discv5: std::sync::Arc::new(discv5), sk, local_id, script: Some(script), events }
     }
 
     pub async fn emit(&self, ev: HandlerOut) {
